@@ -5,6 +5,7 @@ import (
 	"encoding/json"
 	"errors"
 	"fmt"
+	"runtime/debug"
 	"sort"
 	"sync"
 	"sync/atomic"
@@ -197,6 +198,11 @@ func runScenario(t fataler, sc scenario) {
 	done := make(chan struct{})
 	go func() {
 		defer close(done)
+		defer func() {
+			if p := recover(); p != nil {
+				failure = fmt.Sprintf("panic in the controller goroutine (inside a daemon call): %v\n%s", p, debug.Stack())
+			}
+		}()
 		failure = execScenario(sc, labels, &nontrivial)
 	}()
 	if !ctl.WaitChan(done, 3*ctl.HangTimeout) {
